@@ -1404,6 +1404,14 @@ func Run(c *hx.Ctx) error {
 	if err := runS(c, r.Fork(), scases); err != nil {
 		return err
 	}
+	// tier moves (tier.go)
+	mcases := n / 3
+	if v := c.Arg("mcases", ""); v != "" {
+		mcases, _ = strconv.Atoi(v)
+	}
+	if err := runM(c, root, r.Fork(), mcases); err != nil {
+		return err
+	}
 	c.Stats.Notes = append(c.Stats.Notes,
 		"time.Now is not injectable: every case keeps a 2 s margin around end+duration and is redone if it took longer than 1.2 s; the exact boundary instant is covered by the regenerated expression and expired_iff only",
 		"the write-side window test (checkDBRP / routeAndMapOriginRows) is regenerated and proved about, not driven dynamically")
